@@ -34,7 +34,9 @@ func c03Wire(routes []rRoute, o rObs) string {
 func c03Run(ci any) Result {
 	c := ci.(*c03Case)
 	var cur rObs
-	e := rEchoWarm(c.Routes, c.Warm, []rReq{c.Req, {Method: http.MethodOptions, Path: c.Req.Path}, {Method: "X-UNREGISTERED", Path: c.Req.Path}}, &cur)
+	host := rHostForC03(c.Routes)
+	c.Req.Host = host
+	e := rEchoWarmHost(host, c.Routes, c.Warm, []rReq{c.Req, {Method: http.MethodOptions, Path: c.Req.Path, Host: host}, {Method: "X-UNREGISTERED", Path: c.Req.Path, Host: host}}, &cur)
 	if c.Req.Override {
 		e.Pre(middleware.MethodOverride())
 	}
@@ -50,7 +52,7 @@ func c03Run(ci any) Result {
 				vals[i] = "v" + wInt(i)
 			}
 			if pp, ok := rInst(toks, vals); ok {
-				rServe(e, &cur, rReq{Method: c.Routes[k].Method, Path: pp})
+				rServe(e, &cur, rReq{Method: c.Routes[k].Method, Path: pp, Host: host})
 				prior = cur.Kind == 'D'
 			}
 		}
@@ -129,7 +131,7 @@ func c03Run(ci any) Result {
 			if m == http.MethodOptions {
 				continue
 			}
-			rServe(e, &cur, rReq{Method: m, Path: c.Req.Path})
+			rServe(e, &cur, rReq{Method: m, Path: c.Req.Path, Host: host})
 			if cur.Kind != 'D' || c.Routes[cur.Hid].Method != m {
 				fail(fmt.Sprintf("Allow advertises %s but %s %q gives %s", m, m, c.Req.Path, cur.wire()))
 			}
@@ -139,7 +141,7 @@ func c03Run(ci any) Result {
 		if c.Req.Method != http.MethodOptions {
 			other = http.MethodOptions
 		}
-		rServe(e, &cur, rReq{Method: other, Path: c.Req.Path})
+		rServe(e, &cur, rReq{Method: other, Path: c.Req.Path, Host: host})
 		if cur.Kind == 'M' && strings.Join(cur.Allow, ",") != strings.Join(first.Allow, ",") {
 			fail(fmt.Sprintf("Allow differs between %s (%q) and %s (%q)", c.Req.Method, first.Allow, other, cur.Allow))
 		}
